@@ -385,29 +385,15 @@ func (d *Datastore) TransactionSet(ctx context.Context, transactionId string, tr
 	// set the timeout on the transaction
 	transaction.SetTimeout(transactionTimeout)
 
-	var transactionGuard *types.TransactionGuard
-
-	// Try to register the Transaction in the TransactionManager only a single transaction can be register (implicitly being active)
-	for {
-		select {
-		case <-ctx.Done():
-			// Context was canceled or timed out
-			log.Errorf("Transaction: %s - context canceled or timed out: %v", transactionId, ctx.Err())
-			return nil, ErrDatastoreLocked
-		default:
-			// Start a transaction and prepare to cancel it if any error occurs
-			transactionGuard, err = d.transactionManager.RegisterTransaction(ctx, transaction)
-			if transactionGuard != nil {
-				defer transactionGuard.Done()
-				break
-			}
-			log.Warnf("Transaction: %s - failed to create transaction, retrying: %v", transactionId, err)
-			time.Sleep(time.Millisecond * 200)
-		}
-		if transactionGuard != nil {
-			break
-		}
+	// Try to register the Transaction in the TransactionManager only a single transaction can be register (implicitly being active).
+	// There is no waiting for an ongoing transaction here: its Confirm / Cancel need the datastore lock this call is holding.
+	transactionGuard, err := d.transactionManager.RegisterTransaction(ctx, transaction)
+	if err != nil {
+		log.Warnf("Transaction: %s - failed to create transaction: %v", transactionId, err)
+		return nil, ErrDatastoreLocked
 	}
+	// prepare to cancel it if any error occurs
+	defer transactionGuard.Done()
 
 	// add the replaceIntent to the transaction
 	transaction.SetReplace(replaceIntent)
